@@ -510,9 +510,9 @@ def seq_reverse(ex, s):
     f = P.ufn(f'rev_{s.kind.name}', [s.kind.sort()], s.kind.sort())
     r = f(s.t)
     n = z3.Length(s.t)
-    ex.run.assume(z3.Length(r) == n, 'A-seq')
+    ex.run.axiom(z3.Length(r) == n, 'A-seq')
     i = z3.Int('rev_i')
-    ex.run.assume(_P().forall([i], z3.Implies(z3.And(i >= 0, i < n), r[i] == s.t[n - 1 - i]), patterns=[r[i]]))
+    ex.run.axiom(_P().forall([i], z3.Implies(z3.And(i >= 0, i < n), r[i] == s.t[n - 1 - i]), patterns=[r[i]]))
     return Sym(s.kind, r)
 
 
@@ -614,8 +614,8 @@ def delitem(ex, obj, idx):
                 raise RaiseEx(ExcVal('KeyError', origin='del'))
             f = P.ufn(f'seq_remove_{k.key.name}', [z3.SeqSort(k.key.sort()), k.key.sort()], z3.SeqSort(k.key.sort()))
             nkeys = f(k.keys(m.t), kt)
-            run.assume(z3.Not(z3.Contains(nkeys, z3.Unit(kt))), 'A-dict')
-            run.assume(z3.Length(nkeys) == z3.Length(k.keys(m.t)) - 1, 'A-dict')
+            run.axiom(z3.Not(z3.Contains(nkeys, z3.Unit(kt))), 'A-dict')
+            run.axiom(z3.Length(nkeys) == z3.Length(k.keys(m.t)) - 1, 'A-dict')
             cell.sym = Sym(k, k.mk(z3.Store(k.arr(m.t), kt, k.optv.none()), nkeys))
             return
         if isinstance(cell, HObj) and not isinstance(cell.cls, tuple) and cell.cls.is_subclass_of(('ext', 'builtins.dict')):
@@ -726,7 +726,7 @@ def map_update(ex, a, b):
     r = f(a.t, b.t)
     x = z3.Const(f'upd_k_{k.key.name}', k.key.sort())
     sel = z3.Select(k.arr(r), x)
-    ex.run.assume(_P().forall([x], sel == z3.If(k.optv.is_none(z3.Select(k.arr(b.t), x)),
+    ex.run.axiom(_P().forall([x], sel == z3.If(k.optv.is_none(z3.Select(k.arr(b.t), x)),
                                               z3.Select(k.arr(a.t), x), z3.Select(k.arr(b.t), x)),
                             patterns=[sel]), 'A-dict')
     return Sym(k, r)
